@@ -4,6 +4,7 @@ C06 — A datatype's server log is a gapless total order of exactly the pushed o
 option bits, checkpoints, operation lists: empty, duplicated, gapped, foreign ids).
 -/
 import Orda.Proofs.ServerLog
+import Orda.Proofs.ServerRefine
 namespace Orda.Props.C06
 open Orda
 
@@ -37,5 +38,43 @@ theorem end_and_cseq_monotone (st : Store) (cl : ClientDoc) (col : CollectionDoc
     (hd' : d' ∈ (processPack st cl col p).store.datatypes) (hid : d'.duid = d.duid)
     (hs' : d'.sub cl.cuid false = some s') : s.cp.cseq ≤ s'.cp.cseq ∧ d.sseqEnd ≤ d'.sseqEnd :=
   cseq_monotone' st cl col p d d' s s' h hd hs hd' hid hs'
+
+open Orda.SRef in
+/-- the STORE-LEVEL server, on an ordinary request of a subscribed client, is the protocol's abstract `serve` step: the log grows by
+    exactly the operations `pushOps` accepts from ⟨old length, recorded sequence⟩, the answer carries the OLD log after the
+    request's position and the checkpoint that is recorded, the other clients' records and every other datatype are untouched,
+    and the invariant is kept (`SRef.IsServe` lists the eleven facts) -/
+theorem store_server_is_the_protocol_server {st : Store} {cl : ClientDoc} {col : CollectionDoc} {p : Pack} {d : DatatypeDoc}
+    (inv : LogInv st) (h : Ordinary st cl col p d) {cp2 : CheckPoint} {docs : List OpDoc}
+    (hpush : pushOps pDuid pCol ⟨(absLog st p.duid).length, (absRec st p.duid cl.cuid).cseq⟩ p.ops [] = .ok (cp2, docs)) :
+    IsServe st cl p cp2 docs (processPack st cl col p) :=
+  processPack_is_serve inv h hpush
+
+open Orda.SRef in
+/-- … and when `pushOps` refuses, nothing at all is stored and the answer is the error pack -/
+theorem store_server_refusal_stores_nothing {st : Store} {cl : ClientDoc} {col : CollectionDoc} {p : Pack} {d : DatatypeDoc}
+    (inv : LogInv st) (h : Ordinary st cl col p d) {code : Nat}
+    (hpush : pushOps pDuid pCol ⟨(absLog st p.duid).length, (absRec st p.duid cl.cuid).cseq⟩ p.ops [] = .error code) :
+    let r := processPack st cl col p
+    r.store = st ∧ r.resp.error = true ∧ r.resp.ops = [⟨OpId.nil, .error code⟩] ∧
+    r.resp.key = p.key ∧ r.resp.duid = p.duid ∧ r.pushed = 0 ∧ r.notif = none :=
+  processPack_is_refuse inv h hpush
+
+open Orda.SRef in
+/-- a subscribe request is served like an empty request: the log is untouched, the client is recorded at the end of the log, the answer
+    is the log after the request's position, under the STORED datatype id -/
+theorem store_server_subscribe_is_empty_serve {st : Store} {cl : ClientDoc} {col : CollectionDoc} {p : Pack} {d : DatatypeDoc}
+    (inv : LogInv st) (h : SubscribeReq st cl col p d) :
+    let r := processPack st cl col p
+    let cp2 : CheckPoint := ⟨(absLog st d.duid).length, (absRec st d.duid cl.cuid).cseq⟩
+    absLog r.store d.duid = absLog st d.duid ∧
+    absCps r.store d.duid = alSet cl.cuid cp2 (absCps st d.duid) ∧
+    r.resp.ops = (absLog st d.duid).drop p.cp.sseq ∧
+    r.resp.cp = cp2 ∧
+    r.resp.error = false ∧ r.resp.subscribe = true ∧ r.resp.duid = d.duid ∧ r.resp.key = p.key ∧
+    r.store.operations = st.operations ∧ r.pushed = 0 ∧
+    (∀ u, u ≠ d.duid → r.store.getDatatype u = st.getDatatype u) ∧
+    LogInv r.store :=
+  processPack_is_serveSub inv h
 
 end Orda.Props.C06
